@@ -40,14 +40,14 @@ PROPS["C07"] = {
 
 PROPS["C06"] = {
     "level": "proof",
-    "technique": "Lean 4 theorems on a model of the three from_bytes/to_bytes pairs (signature strictness for all strings, rejection rules for all three types, totality of pk decoding) + model/implementation differential execution with an independent format reference",
+    "technique": "Lean 4 theorems on a model of the three from_bytes/to_bytes pairs (strictness 'accepted => re-encodes identically' for all byte strings and all three types, decode injectivity, rejection rules, totality) + model/implementation differential execution with an independent format reference",
     "rule": "ops = for each type (pk, sk, sig) x variant: all 256 header bytes on a valid body; valid encodings with exactly one thing wrong (header bit, length +-1, other variant's length, +8192/16384 trailing bytes, a field at q-1/q/q+1/2^14-1 or at the reserved 10..0 pattern and its neighbours, bit flips, random bodies), decoded with the matching and the other variant; degenerate lengths 0..3; output = re-encoding of what was accepted or the error kind; distinct by op line; every op is judged: accepted iff the harness's naive format reference accepts, and then the re-encoding equals the input",
     "exhaustive": {"quick": (False, "header byte enumerated completely per type/variant; bodies generated"), "thorough": (False, "same, 20x more bodies")},
-    "level_text": "Machine-checked: Signature::from_bytes never panics, accepts exactly one header byte (0x59 / 0x5a), and every accepted string re-encodes to itself (all byte strings); wrong lengths, the other variant, non-canonical headers, 14-bit fields >= q and the reserved secret-key pattern are rejected (theorems per rule); PublicKey::from_bytes is total. The bit-chunk reassembly behind 'accepted => re-encodes identically' for the two key types is validated by execution against the real code and a naive format reference on every run, not yet proved for all strings.",
-    "level_note": "Trusted: Lean kernel; model of BitVec/chunks as list functions; translator (lengths, widths, header constants); harness. Key-type strictness beyond the rejection rules rests on differential execution.",
+    "level_text": "Machine-checked: Signature::from_bytes never panics, accepts exactly one header byte (0x59 / 0x5a), and every accepted string re-encodes to itself (all byte strings); wrong lengths, the other variant, non-canonical headers, 14-bit fields >= q and the reserved secret-key pattern are rejected (theorems per rule); PublicKey::from_bytes is total. Both key decoders are strict for every byte string (public_key_strict, secret_key_strict): the 14-bit unsigned and the 5/6/8-bit two's-complement chunks re-serialise to the same bits, headers are unique, no padding bits exist, serialisation does not overflow in either build mode; hence decoding is injective (public_key_decode_injective, secret_key_decode_injective). The model is compared with the real code and a naive format reference on every run.",
+    "level_note": "Trusted: Lean kernel; model of BitVec/chunks as list functions; translator (lengths, widths, header constants); harness. The model of SecretKey::from_bytes ends at the final length check (f, g, F as residues); the recomputation of G and the construction of the key object are covered by execution (C05).",
     "trusted_base": TB_COMMON + ["bit-vec and itertools::chunks are modelled as list functions, not verified"],
     "assumptions": ["SecretKey equality after decoding (recomputed G) is part of C05, not of this check"],
-    "not_proved": ["pkFromBytes/skFromBytes accepted => toBytes reproduces the input, for all strings (validated per run)"],
+    "not_proved": ["that the rebuilt SecretKey object (recomputed G, FFT tree) serialises from the same f, g, F: executed per run"],
     "release_too": True,
 }
 
@@ -147,14 +147,14 @@ PROPS["C04"] = {
 
 PROPS["C05"] = {
     "level": "proof",
-    "technique": "Lean 4: complete kernel enumeration of the secret-key field codec (all widths x all in-range values), keygen range guards (re-extracted) imply the format's range, signature round trip for all strings; whole-object round trips executed by the real code and by the model per generated key",
+    "technique": "Lean 4: complete kernel enumeration of the secret-key field codec (all widths x all in-range values), keygen range guards (re-extracted) imply the format's range; whole-object round-trip theorems for public keys (all canonical vectors), secret keys (all in-range f, g, F; both build modes; sizes) and signatures; executed by the real code and by the model per generated key",
     "rule": "ops = per variant: keygen + to_bytes/from_bytes round trip of sk, pk and a signature with sizes, the decoded key signs and the original pk verifies (seeds incl. those of finding F8); for each key a traced op in which the Lean model encodes (f,g,F), compares with the real bytes, decodes them and recomputes G; the generated pk through the format model; key objects built from boundary field values (+-(2^(w-1)-1), 0) through the real encoder/decoder; distinct by op line; all judged",
     "exhaustive": {"quick": (False, "field codec enumerated completely in the theorem; keys sampled"), "thorough": (False, "")},
-    "level_text": "Machine-checked: every in-range value of every field width (5, 6, 8 bits) round-trips through the field codec and the reserved pattern is the only exception (complete enumeration); ntru_gen's guards (constants re-extracted from math.rs) put every accepted f, g, F, G inside that range for both variants; a signature re-decodes to itself; sizes 1281/897/666 and 2305/1793/1280. Whole-key round trips incl. the recomputed G are executed per generated key by the real code and reproduced by the model.",
-    "level_note": "Trusted: Lean kernel; translator; the composition 'all fields round-trip => whole key round-trips' (bit-chunk reassembly) is executed, not proved; G = g*F/f mod q equals the generated G because of the NTRU equation and |G| <= 127 (checked per key).",
+    "level_text": "Machine-checked: every in-range value of every field width (5, 6, 8 bits) round-trips through the field codec and the reserved pattern is the only exception (complete enumeration); ntru_gen's guards (constants re-extracted from math.rs) put every accepted f, g, F, G inside that range for both variants; a signature re-decodes to itself; sizes 1281/897/666 and 2305/1793/1280. Whole objects: public_key_roundtrip (every canonical vector of length N encodes to 897/1793 bytes and decodes to itself) and secret_key_roundtrip (every (f, g, F) inside the guards' range serialises without overflow in both build modes to 1281/2305 bytes and decodes to the same residues). The recomputed G and the rebuilt key object are executed per generated key by the real code and reproduced by the model.",
+    "level_note": "Trusted: Lean kernel; translator; G = g*F/f mod q equals the generated G because of the NTRU equation and |G| <= 127 (checked per key).",
     "trusted_base": TB_COMMON,
     "assumptions": [],
-    "not_proved": ["skFromBytes (skToBytes k) = k as a theorem over whole keys", "pkFromBytes (pkToBytes h) = h"],
+    "not_proved": ["the recomputed G equals the generated G for every key (follows from the NTRU equation and |G| <= 127; checked per key)", "every seed yields an in-range key (the guards reject others; termination of the retry loop is probabilistic)"],
     "release_too": False,
     "parallel_model": True,
     "run_timeout": {"quick": 900, "thorough": 3000},
